@@ -165,6 +165,116 @@ def gen_case(r, tier, k):
     return build(dict(fmt=fmt, itp=itp, frames=frames, ctor=ctor, ops=ops, kind=kind, ratio=ratio, varying=varying))
 
 
+# ---------------------------------------------------------------------------
+# unit-ratio / integer-boundary families: ratio exactly 1.0 while the accumulator holds a
+# fractional position, accumulator landing exactly on integers and just below them.
+# Exactly representable values only.
+
+UNIT_CTL = [0.25, 0.5, 0.75, 1.0, 1.0, 1.5, 2.0]
+EPS40 = 2.0 ** -40
+BOUNDARY_CHUNKS = [[0.5, 0.5], [0.25, 0.25, 0.25, 0.25], [1.5, 0.5], [1.0 - EPS40], [0.5, 0.5 - EPS40],
+                   [1.0], [0.75, 0.25], [1.0 - EPS40, EPS40], [1.0 + EPS40], [0.5, 1.0, 0.5], [2.0], [0.25, 1.0, 1.0, 0.75]]
+UNIT_FAMILIES = ["mul_unit", "set_unit", "boundary_mul", "boundary_set"]
+
+
+def set_to_one(r):
+    """one of the three public ways of setting the ratio to exactly 1.0"""
+    c = r.below(3)
+    if c == 0:
+        return ["p", d2b(1.0)]
+    if c == 1:
+        a = r.choice([44100.0, 48000.0, 1.0, 0.3, 7.0])
+        return ["h", d2b(a), d2b(a)]
+    return ["s", d2b(1.0)]
+
+
+def gen_unit_case(r, tier, k):
+    fam = UNIT_FAMILIES[k % len(UNIT_FAMILIES)]
+    itp = (k // len(UNIT_FAMILIES)) % 2          # floor AND linear for every family
+    fmt = ["f64", "i16", "f32", "u8", "i16x2"][(k // (2 * len(UNIT_FAMILIES))) % 5]
+    L = r.range(2, 14)
+    nchan = FMT[fmt][1]
+    frames = [[rand_sample(r, fmt) for _ in range(nchan)] for _ in range(L)]
+    ops = []
+    if fam == "mul_unit":
+        n = r.range(10, 28)
+        first = r.choice([0.25, 0.5, 0.75, 1.5])           # a fractional position first
+        ctl = [first] + [r.choice(UNIT_CTL) for _ in range(n - 1)]
+        ctor = ["mul"] + [d2b(x) for x in ctl]
+        ops = [["n"]] * (n + (1 if r.chance(1, 4) else 0))
+    elif fam == "set_unit":
+        f = r.choice([0.5, 0.25, 0.75, 1.5, 0.375, 2.5])
+        ctor = r.choice([["scale", d2b(f)], ["hz", d2b(f * 8.0), d2b(8.0)], ["sample", d2b(1.0 / f)] if f in (0.5, 0.25) else ["scale", d2b(f)]])
+        for _ in range(r.range(1, 3)):                      # fractional outputs, then exactly 1.0, maybe again
+            ops += [["n"]] * r.range(1, 5)
+            ops.append(set_to_one(r))
+            ops += [["n"]] * r.range(2, 6)
+            ops.append(["p", d2b(r.choice([0.5, 0.25, 0.75, 1.5, 0.125]))])
+        ops += [["n"]] * r.range(1, 4)
+    else:
+        seq = []
+        for _ in range(r.range(3, 8)):
+            seq += r.choice(BOUNDARY_CHUNKS)
+        if fam == "boundary_mul":
+            ctor = ["mul"] + [d2b(x) for x in seq]
+            ops = [["n"]] * len(seq)
+        else:
+            ctor = ["scale", d2b(seq[0])]
+            ops = [["n"]]
+            for x in seq[1:]:
+                ops += [["p", d2b(x)] if x != 1.0 else set_to_one(r), ["n"]]
+            ops.append(["n"])
+    return build(dict(fmt=fmt, itp=itp, frames=frames, ctor=ctor, ops=ops, kind=fam, ratio=0.5, varying=True))
+
+
+def b2d(b):
+    return struct.unpack("<d", struct.pack("<Q", b))[0]
+
+
+def unit_feature(item):
+    """replays the accumulator arithmetic of the case in binary64 (python floats) and returns
+    (outputs with ratio == 1.0 while the accumulator's fraction != 0,
+     outputs before which the accumulator sits exactly on an integer >= 1)"""
+    c = item["ctor"]
+    ctl = None
+    try:
+        if c[0] == "mul":
+            ctl = [b2d(x) for x in c[1:]]
+            ratio = 1.0
+        elif c[0] == "hz":
+            ratio = b2d(c[1]) / b2d(c[2])
+        elif c[0] == "sample":
+            ratio = 1.0 / b2d(c[1])
+        else:
+            ratio = b2d(c[1])
+    except ZeroDivisionError:
+        return 0, 0
+    if not (ratio > 0.0) or ratio > 1e6:
+        return 0, 0
+    v, k, unit, exact = 0.0, 0, 0, 0
+    for o in item["ops"]:
+        if o[0] == "p":
+            ratio = b2d(o[1])
+        elif o[0] == "h":
+            ratio = b2d(o[1]) / b2d(o[2]) if b2d(o[2]) != 0.0 else float("nan")
+        elif o[0] == "s":
+            ratio = 1.0 / b2d(o[1]) if b2d(o[1]) != 0.0 else float("nan")
+        else:
+            if ctl is not None:
+                ratio = ctl[k] if k < len(ctl) else 0.0
+                k += 1
+            if not (abs(v) < 1e9):
+                return unit, exact
+            if v >= 1.0 and v == math.floor(v):
+                exact += 1
+            while v >= 1.0:
+                v -= 1.0
+            if ratio == 1.0 and v != 0.0:
+                unit += 1
+            v += ratio
+    return unit, exact
+
+
 def gen_malformed(r):
     """constructor arguments outside the domain (scale > 0 asserted) and harmless odd set_* values"""
     out = []
@@ -190,6 +300,8 @@ def gen_cases(rng, tier):
     n = 420 if tier == "quick" else 5000
     for k in range(n):
         items.append(gen_case(rng.fork(f"case{k}"), tier, k))
+    for k in range(160 if tier == "quick" else 2000):
+        items.append(gen_unit_case(rng.fork(f"unit{k}"), tier, k))
     items += gen_malformed(rng.fork("malformed"))
     return items
 
@@ -273,6 +385,19 @@ def main(rep, tier, seed):
                 hist["pulls_per_output"]["0" if d == 0 else "1" if d == 1 else "2-3" if d < 4 else "4+"] += 1
         hist["exhaustion_reached"] += 1 if reached else 0
     nontriv = len({it["line"] for it, o in zip(items, outl) if nontrivial(it, o)}) if not errors else 0
+    # extra non-trivial feature: ratio exactly 1.0 at an output where the accumulator's fraction != 0
+    uf = {"cases": 0, "outputs": 0, "cases_floor": 0, "cases_linear": 0,
+          "accumulator_exactly_integer_cases": 0, "accumulator_exactly_integer_outputs": 0}
+    for it in items:
+        u, e = unit_feature(it)
+        if u:
+            uf["cases"] += 1
+            uf["outputs"] += u
+            uf["cases_linear" if it["itp"] else "cases_floor"] += 1
+        if e:
+            uf["accumulator_exactly_integer_cases"] += 1
+            uf["accumulator_exactly_integer_outputs"] += e
+    hist["unit_ratio_at_fractional_position"] = uf
     for idx in bad[:3]:
         it = items[idx]
 
@@ -305,7 +430,7 @@ def finish(rep, info, n, nontriv, dist, samples, bad=(), fb=None):
             "modelled, not verified: Frame::zip_map on arrays as per-channel list map, Signal/Iterator trait dispatch, the Counted/CountIter instrumentation in the harness"],
         "theorems": th, "axioms_reported": info.get("axioms", []),
         "evaluations": n, "distinct_nontrivial": nontriv,
-        "rule": "one evaluation = one converter run (priming, construction, up to 80 outputs, every observation compared); non-trivial = the ratio is not 1 and the run reaches exhaustion (some output observed with is_exhausted = 1), or the ratio varies per output (mul_hz control signal / set_* calls)",
+        "rule": "one evaluation = one converter run (priming, construction, up to 80 outputs, every observation compared); non-trivial = the ratio is not 1 and the run reaches exhaustion (some output observed with is_exhausted = 1), or the ratio varies per output (mul_hz control signal / set_* calls); extra feature counted in input_distribution.unit_ratio_at_fractional_position: ratio exactly 1.0 (mul_hz control value, set_playback_hz_scale(1.0), set_hz_to_hz(a, a), set_sample_hz_scale(1.0)) at an output where the accumulator's fraction is not 0, and accumulators landing exactly on / just below integers",
         "samples": samples, "input_distribution": dist, "disagreements": len(bad),
         "known_finding_class": "K3: accumulator >= 2^53 (ratio >= 2^53 or non-finite): excluded from generation, never executed on the real code; refuted on the binary64 model (c08_k3_refuted)",
         "explanation": "theorems: real-arithmetic position/consumption/exhaustion/count statements for all positive ratio sequences, sources and both interpolators + binary64 exactness of the pull loop below 2^53; tie: the same Gallina model over Flocq binary64 evaluated by coqc on the cases the real Converter/MulHz run, all observations (frames, pull counters, exhaustion flags, accumulator bits) compared exactly",
